@@ -435,6 +435,18 @@ pub fn run(cx: &mut Ctx) {
             check_content(c, name, &m, if cfg!(miri) { 4 } else { 40 });
         });
     }
+    if !cfg!(miri) {
+        for which in 0..archive::THRESHOLD_VARIANTS {
+            cx.case("threshold", |c| {
+                let mut rng = c.rng.clone();
+                if let Some((name, m)) = archive::threshold_content(&mut rng, which, which % 2 == 0) {
+                    c.rng = rng;
+                    c.sit("table_size_thresholds");
+                    check_content(c, &name, &m, 2);
+                }
+            });
+        }
+    }
     let n = cx.a.n(200_000, 3_000_000);
     let big_every = 997;
     for i in 0..n {
